@@ -226,11 +226,13 @@ class CFG:
                     if o is not None:
                         self._orig_node[id(o)] = None if id(o) in self._orig_node else nd   # two copies of one statement: ambiguous
             cur = st
-            while cur is not None and self._orig_node.get(id(cur)) is None:
+            while cur is not None:
+                # st itself may be a copy (of another derived form of the same function): go through the node both stand for
+                for key in (id(cur), id(getattr(cur, "_orig", cur))):
+                    if self._orig_node.get(key) is not None:
+                        return self.nodes[self._orig_node[key].id]
                 cur = parent(cur)
-            if cur is None:
-                raise KeyError("statement not in this CFG")
-            return self.nodes[self._orig_node[id(cur)].id]
+            raise KeyError("statement not in this CFG")
         return self.nodes[self.stmt_node[id(cur)].id]
 
     def succ_ids(self, i: int, skip_exc: bool = False) -> List[int]:
